@@ -634,7 +634,14 @@ protected:
 
     for (auto kv : e) {
       const variable_t &pivot = kv.second;
-      interval_t i = compute_residual(e, pivot) / interval_t(kv.first);
+      // c*pivot != r implies pivot != r/c only if the division is
+      // exact (e.g., 20*x != -5 says nothing about x = -5/20 = 0).
+      interval_t r = compute_residual(e, pivot);
+      interval_t c(kv.first);
+      interval_t i = r / c;
+      if (!(i * c == r)) {
+        continue;
+      }
       if (auto k = i.singleton()) {
         if (!add_univar_disequation(pivot, *k)) {
           // set_to_bottom() was already called
